@@ -3,7 +3,11 @@ import KafVerif.Prelude.Basic
 Model of `cmd/broker/s3_dual.go` (`dualS3Client`) over two buckets with the range semantics of
 `storage.MemoryS3Client`, plus the environment the property quantifies over: asynchronous
 replication (`replSeg k`/`replIdx k` copy the primary's CURRENT state of object k to the replica, at
-any time or never — including the absence of a deleted object) and per-key read faults on either side.
+any time or never — including the absence of a deleted object), per-key read faults on either side and
+per-METHOD faults of the non-download calls (`UploadSegment`, `UploadIndex`, `DeleteSegment`, `DeleteIndex`,
+`ListSegments`, `EnsureBucket`) on either side: `once` = the next call of that method fails (throttling /
+5xx / network) and a retry succeeds, `always` = every call fails until the fault is cleared.  A failing
+backend call changes nothing in the bucket (it only uses up a `once` fault).
 
 Keys are plain `Nat` (the harness maps ids to real segment/index key strings).
 Buckets are functions `key ↦ Option bytes`; the set of keys ever uploaded is kept for listing.
@@ -24,13 +28,38 @@ def rangeRead (data : Bytes) : Option Rng → GoResult Bytes
     if start > stop ∨ start ≥ data.length then .err
     else .ok ((data.drop start.toNat).take (stop - start + 1).toNat)
 
+inductive Method where
+  | uploadSegment | uploadIndex | deleteSegment | deleteIndex | downloadSegment | downloadIndex | listSegments | ensureBucket
+deriving Repr, DecidableEq
+
+def Method.name : Method → String
+  | .uploadSegment => "UploadSegment" | .uploadIndex => "UploadIndex" | .deleteSegment => "DeleteSegment"
+  | .deleteIndex => "DeleteIndex" | .downloadSegment => "DownloadSegment" | .downloadIndex => "DownloadIndex"
+  | .listSegments => "ListSegments" | .ensureBucket => "EnsureBucket"
+
+/-- injected fault of one backend method: `once` = the next call fails, `always` = every call fails -/
+inductive Fault where
+  | none | once | always
+deriving Repr, DecidableEq
+
+def Fault.fires : Fault → Bool
+  | .none => false
+  | _ => true
+
+/-- state of the fault after one call of the method -/
+def Fault.next : Fault → Fault
+  | .once => .none
+  | f => f
+
 structure Bucket where
   seg : Nat → Option Bytes
   idx : Nat → Option Bytes
   failing : Nat → Bool          -- injected read fault for this key (network / 5xx / throttling)
   keys : List Nat               -- keys ever uploaded as segments (for ListSegments)
+  opFault : Method → Fault      -- injected fault of the non-download methods (per method)
 
-def Bucket.empty : Bucket := { seg := fun _ => none, idx := fun _ => none, failing := fun _ => false, keys := [] }
+def Bucket.empty : Bucket :=
+  { seg := fun _ => none, idx := fun _ => none, failing := fun _ => false, keys := [], opFault := fun _ => .none }
 
 def upd {α} (f : Nat → α) (k : Nat) (v : α) : Nat → α := fun k' => if k' = k then v else f k'
 
@@ -48,9 +77,37 @@ def Bucket.readIdx (b : Bucket) (k : Nat) : GoResult Bytes :=
     | some d => .ok d
     | none => .err
 
-/-- one backend's `ListSegments` (all keys; sorted by the canonicaliser): key and size -/
+/-- the content one backend's `ListSegments` reports (all keys; sorted by the canonicaliser): key and size -/
 def Bucket.list (b : Bucket) : List (Nat × Nat) :=
   (b.keys.eraseDups.filterMap fun k => (b.seg k).map fun d => (k, d.length))
+
+def updM {α} (f : Method → α) (m : Method) (v : α) : Method → α := fun m' => if m' = m then v else f m'
+
+/-- One backend call of a non-download method `m`: an injected fault makes the call fail and leaves the
+bucket content as it was (a `once` fault is used up); otherwise the effect `eff` is applied and `val` of
+the bucket (before the effect) is returned. -/
+def Bucket.call {α} (b : Bucket) (m : Method) (eff : Bucket → Bucket) (val : Bucket → α) : Bucket × GoResult α :=
+  if (b.opFault m).fires then ({ b with opFault := updM b.opFault m (b.opFault m).next }, .err)
+  else (eff b, .ok (val b))
+
+/-- one backend's `UploadSegment` -/
+def Bucket.uploadSegment (b : Bucket) (k : Nat) (d : Bytes) : Bucket × GoResult Unit :=
+  b.call .uploadSegment (fun b => { b with seg := upd b.seg k (some d), keys := k :: b.keys }) (fun _ => ())
+/-- one backend's `UploadIndex` -/
+def Bucket.uploadIndex (b : Bucket) (k : Nat) (d : Bytes) : Bucket × GoResult Unit :=
+  b.call .uploadIndex (fun b => { b with idx := upd b.idx k (some d) }) (fun _ => ())
+/-- one backend's `DeleteSegment` -/
+def Bucket.deleteSegment (b : Bucket) (k : Nat) : Bucket × GoResult Unit :=
+  b.call .deleteSegment (fun b => { b with seg := upd b.seg k none }) (fun _ => ())
+/-- one backend's `DeleteIndex` -/
+def Bucket.deleteIndex (b : Bucket) (k : Nat) : Bucket × GoResult Unit :=
+  b.call .deleteIndex (fun b => { b with idx := upd b.idx k none }) (fun _ => ())
+/-- one backend's `ListSegments`: its listing, or its error -/
+def Bucket.listSegments (b : Bucket) : Bucket × GoResult (List (Nat × Nat)) :=
+  b.call .listSegments id Bucket.list
+/-- one backend's `EnsureBucket` -/
+def Bucket.ensureBucket (b : Bucket) : Bucket × GoResult Unit :=
+  b.call .ensureBucket id (fun _ => ())
 
 structure State where
   pri : Bucket      -- `d.write`
@@ -70,42 +127,70 @@ def dualReadIdx (s : State) (k : Nat) : GoResult Bytes :=
   | .ok d => .ok d
   | _ => s.pri.readIdx k
 
-/-- `dualS3Client.ListSegments` → `d.write.ListSegments`. -/
-def dualList (s : State) : List (Nat × Nat) := s.pri.list
+/-- a dual-client method that is `return d.write.<Method>(…)`: the primary's answer (value or error) is the
+answer, the primary's new state is the new state, the replica is not involved -/
+def onPrimary {α} (s : State) (f : Bucket → Bucket × GoResult α) : State × GoResult α :=
+  ({ s with pri := (f s.pri).1 }, (f s.pri).2)
+
+/-- `dualS3Client.UploadSegment` → `d.write.UploadSegment`. -/
+def dualUploadSegment (s : State) (k : Nat) (d : Bytes) : State × GoResult Unit := onPrimary s (·.uploadSegment k d)
+/-- `dualS3Client.UploadIndex` → `d.write.UploadIndex`. -/
+def dualUploadIndex (s : State) (k : Nat) (d : Bytes) : State × GoResult Unit := onPrimary s (·.uploadIndex k d)
+/-- `dualS3Client.DeleteSegment` → `d.write.DeleteSegment`. -/
+def dualDeleteSegment (s : State) (k : Nat) : State × GoResult Unit := onPrimary s (·.deleteSegment k)
+/-- `dualS3Client.DeleteIndex` → `d.write.DeleteIndex`. -/
+def dualDeleteIndex (s : State) (k : Nat) : State × GoResult Unit := onPrimary s (·.deleteIndex k)
+/-- `dualS3Client.ListSegments` → `d.write.ListSegments` (the primary's listing or the primary's error). -/
+def dualListSegments (s : State) : State × GoResult (List (Nat × Nat)) := onPrimary s (·.listSegments)
+/-- `dualS3Client.EnsureBucket` → `d.write.EnsureBucket`. -/
+def dualEnsureBucket (s : State) : State × GoResult Unit := onPrimary s (·.ensureBucket)
 
 inductive Op where
   | upSeg (k : Nat) (b : Bytes)     -- dual.UploadSegment
   | upIdx (k : Nat) (b : Bytes)     -- dual.UploadIndex
   | delSeg (k : Nat)                -- dual.DeleteSegment
   | delIdx (k : Nat)                -- dual.DeleteIndex
+  | list                            -- dual.ListSegments
+  | ensure                          -- dual.EnsureBucket
   | replSeg (k : Nat)               -- environment: replication catches up on segment object k
   | replIdx (k : Nat)               -- environment: replication catches up on index object k
   | rFail (k : Nat) (on : Bool)     -- environment: replica reads of k fail / recover
   | pFail (k : Nat) (on : Bool)     -- environment: primary reads of k fail / recover
+  | pOpFail (m : Method) (f : Fault) -- environment: the primary's method m fails once / always / recovers
+  | rOpFail (m : Method) (f : Fault) -- environment: the replica's method m fails once / always / recovers
 deriving Repr
 
-def step (s : State) : Op → State
-  | .upSeg k b => { s with pri := { s.pri with seg := upd s.pri.seg k (some b), keys := k :: s.pri.keys } }
-  | .upIdx k b => { s with pri := { s.pri with idx := upd s.pri.idx k (some b) } }
-  | .delSeg k => { s with pri := { s.pri with seg := upd s.pri.seg k none } }
-  | .delIdx k => { s with pri := { s.pri with idx := upd s.pri.idx k none } }
-  | .replSeg k => { s with rep := { s.rep with seg := upd s.rep.seg k (s.pri.seg k), keys := k :: s.rep.keys } }
-  | .replIdx k => { s with rep := { s.rep with idx := upd s.rep.idx k (s.pri.idx k) } }
-  | .rFail k on => { s with rep := { s.rep with failing := upd s.rep.failing k on } }
-  | .pFail k on => { s with pri := { s.pri with failing := upd s.pri.failing k on } }
+/-- what the caller of a dual-client write/list call sees (`env` for environment events) -/
+inductive Out where
+  | unit (r : GoResult Unit)
+  | listing (r : GoResult (List (Nat × Nat)))
+  | env
+deriving Repr, DecidableEq
+
+def stepOut (s : State) : Op → State × Out
+  | .upSeg k b => ((dualUploadSegment s k b).1, .unit (dualUploadSegment s k b).2)
+  | .upIdx k b => ((dualUploadIndex s k b).1, .unit (dualUploadIndex s k b).2)
+  | .delSeg k => ((dualDeleteSegment s k).1, .unit (dualDeleteSegment s k).2)
+  | .delIdx k => ((dualDeleteIndex s k).1, .unit (dualDeleteIndex s k).2)
+  | .list => ((dualListSegments s).1, .listing (dualListSegments s).2)
+  | .ensure => ((dualEnsureBucket s).1, .unit (dualEnsureBucket s).2)
+  | .replSeg k => ({ s with rep := { s.rep with seg := upd s.rep.seg k (s.pri.seg k), keys := k :: s.rep.keys } }, .env)
+  | .replIdx k => ({ s with rep := { s.rep with idx := upd s.rep.idx k (s.pri.idx k) } }, .env)
+  | .rFail k on => ({ s with rep := { s.rep with failing := upd s.rep.failing k on } }, .env)
+  | .pFail k on => ({ s with pri := { s.pri with failing := upd s.pri.failing k on } }, .env)
+  | .pOpFail m f => ({ s with pri := { s.pri with opFault := updM s.pri.opFault m f } }, .env)
+  | .rOpFail m f => ({ s with rep := { s.rep with opFault := updM s.rep.opFault m f } }, .env)
+
+def step (s : State) (op : Op) : State := (stepOut s op).1
 
 def run (ops : List Op) : State := ops.foldl step State.init
 
+/-- what the callers saw, one entry per op -/
+def trace : State → List Op → List Out
+  | _, [] => []
+  | s, op :: ops => (stepOut s op).2 :: trace (step s op) ops
+
 /-! ### which backend each `dualS3Client` method calls, in order (the delegation table) -/
-
-inductive Method where
-  | uploadSegment | uploadIndex | deleteSegment | deleteIndex | downloadSegment | downloadIndex | listSegments | ensureBucket
-deriving Repr, DecidableEq
-
-def Method.name : Method → String
-  | .uploadSegment => "UploadSegment" | .uploadIndex => "UploadIndex" | .deleteSegment => "DeleteSegment"
-  | .deleteIndex => "DeleteIndex" | .downloadSegment => "DownloadSegment" | .downloadIndex => "DownloadIndex"
-  | .listSegments => "ListSegments" | .ensureBucket => "EnsureBucket"
 
 /-- a call through the dual client -/
 inductive Call where
